@@ -72,7 +72,7 @@ def run(tier):
                               events=[c for c in cases if c.startswith('parse 1') and ' | 0' in c][100:103] + [c for c in cases if c.startswith('parse 5 ')][2000:2002])]
     v.notes['e1'] = dict(cases=len(cases), successes=sum(1 for c in cases if c.split(' | ')[1].startswith('0 ')))
     rnd = random.Random(vf.seed())
-    vf.trace_flow(v, 'SxTrace.tla', 'SxTrace.cfg', 'sx', e2(rnd, 48 if quick else 480), 'sxtrace')
+    vf.trace_flow(v, 'SxTrace.tla', 'SxTrace.cfg', 'sx', e2(rnd, 48 if quick else 2400), 'sxtrace')
     v.cov['rule'] = ('E0/E1: every tree up to depth MaxDepth with at most MaxItems items per list over 5 atoms x 12 rendering styles; every string of length <= MaxLen over the 10-character alphabet; '
                      'E2: mutated renderings and random strings. distinct_nontrivial = distinct cases whose prescribed outcome is a tree.')
     v.cov['exhaustive'] = True
